@@ -3,7 +3,7 @@
    [gen_formats] are the ten instruction formats that gen/instrheader.py reads out of the nine
    `impl InstrFormat` blocks (old ECL gives two: TH06 and later games). *)
 From TV Require Import Base.I32 Model.Container Gen.InstrHeader
-  Proofs.ContainerLE Proofs.Container Proofs.ContainerScript.
+  Proofs.ContainerLE Proofs.Container Proofs.ContainerScript Proofs.ContainerStrings.
 Open Scope Z_scope.
 
 (* (0) little-endian codec: decoding the n bytes written for v gives v modulo 2^(8n) *)
@@ -72,6 +72,16 @@ Proof.
   intros f i rest Hf. apply instr_readback.
   assert (H := C03_generated_tables_ok). rewrite forallb_forall in H. auto.
 Qed.
+
+(* (5) string lists of stack-ECL files (ANIM/ECLI include lists, sub names): the padding written after the
+       strings is a function of the number of bytes written, the list is a multiple of four bytes long, and
+       reading gives the strings back together with the untouched remainder of the file *)
+Theorem C03_string_list_readback : forall ss rest, Forall no_nul ss ->
+  read_string_list (length ss) (write_string_list ss ++ rest) = Some (ss, rest).
+Proof. exact string_list_readback. Qed.
+
+Theorem C03_string_list_aligned : forall ss, Z.of_nat (length (write_string_list ss)) mod 4 = 0.
+Proof. exact string_list_aligned. Qed.
 
 (* non-vacuity: an ordinary instruction fits every generated format (with 12 argument bytes and,
    for TH06 ECL, the parameter mask the format forces) *)
